@@ -78,7 +78,7 @@ def _case(draw, tier):
             args.append(["extra", value_term(0)])
         if not any(A.term_vars(t) for _, t in args):
             args[0][1] = ["var", 0]
-        head = {"cls": draw(st.sampled_from(["Made", "Made", "MadeKw"])), "args": args}
+        head = {"cls": draw(st.sampled_from(["Made", "Made", "MadeKw", "MadeEmpty"])), "args": args}
     else:
         left = draw(st.sampled_from([["var", 0], ["var", 0], int_term(draw, ctx, 0)]))
         right = draw(st.sampled_from([["var", 1], ["var", 1], int_term(draw, ctx, 1)]))
